@@ -72,8 +72,9 @@ Proof.
   destruct e as [from key val len pub ttl | from key provs | from key | from key
                  | key val len exp | key val len pub exp upd | key val len pub exp
                  | key dist q | key dist | key | key | d order].
-  - destruct (k_auto kc); cbn [fst]; rewrite settle_store; [apply do_top_reach | apply reach_refl].
-  - destruct (firstn (N.to_nat (k_repl kc)) provs) as [|[[p dist] na] [|x l]];
+  - destruct (pub =? PUB_INVALID); [cbn [fst]; rewrite settle_store; apply reach_refl|].
+    destruct (k_auto kc); cbn [fst]; rewrite settle_store; [apply do_top_reach | apply reach_refl].
+  - destruct (decoded_provs (k_repl kc) provs) as [|[[p dist] na] [|x l]];
       cbn [fst]; try (rewrite settle_store; apply reach_refl).
     destruct (p =? from); cbn [fst]; rewrite settle_store; [apply do_top_reach | apply reach_refl].
   - pose proof (do_top_reach kc st (TOp (OGet key))) as H.
@@ -169,11 +170,12 @@ Proof.
   destruct e as [from key val len pub ttl | from key provs | from key | from key
                  | key val len exp | key val len pub exp upd | key val len pub exp
                  | key dist q | key dist | key | key | d order]; try discriminate.
-  - destruct (k_auto kc) eqn:Ea; cbn [fst].
+  - destruct (pub =? PUB_INVALID); [cbn [fst]; split; [reflexivity | left; reflexivity]|].
+    destruct (k_auto kc) eqn:Ea; cbn [fst].
     + rewrite settle_quorum, settle_store, do_top_store, do_top_quorum_same by exact I.
       split; [reflexivity|]. right; left. eexists. split; [reflexivity|]. reflexivity.
     + split; [reflexivity | left; reflexivity].
-  - destruct (firstn (N.to_nat (k_repl kc)) provs) as [|[[p dist] na] [|x l]];
+  - destruct (decoded_provs (k_repl kc) provs) as [|[[p dist] na] [|x l]];
       cbn [fst]; try (split; [reflexivity | left; reflexivity]).
     destruct (p =? from) eqn:Ep; cbn [fst]; [|split; [reflexivity | left; reflexivity]].
     rewrite settle_quorum, settle_store, do_top_store, do_top_quorum_same by exact I.
@@ -503,8 +505,9 @@ Proof.
   destruct e as [from key val len pub ttl | from key provs | from key | from key
                  | key val len exp | key val len pub exp upd | key val len pub exp
                  | key dist q | key dist | key | key | d order].
-  - destruct (k_auto kc); cbn [fst]; rewrite settle_store; [apply do_top_good; [exact Hc | exact I | exact HG] | exact HG].
-  - destruct (firstn (N.to_nat (k_repl kc)) provs) as [|[[p dist] na] [|x l]];
+  - destruct (pub =? PUB_INVALID); [cbn [fst]; rewrite settle_store; exact HG|].
+    destruct (k_auto kc); cbn [fst]; rewrite settle_store; [apply do_top_good; [exact Hc | exact I | exact HG] | exact HG].
+  - destruct (decoded_provs (k_repl kc) provs) as [|[[p dist] na] [|x l]];
       cbn [fst]; try (rewrite settle_store; exact HG).
     destruct (p =? from); cbn [fst]; rewrite settle_store; [|exact HG].
     apply do_top_good; [exact Hc | cbn [erase]; lia | exact HG].
@@ -561,8 +564,8 @@ Proof.
   destruct e as [from key val len pub ttl | from key provs | from key | from key
                  | key val len exp | key val len pub exp upd | key val len pub exp
                  | key dist q | key dist | key | key | d order]; intro Hd'.
-  - destruct (k_auto kc); apply settle_armed.
-  - destruct (firstn (N.to_nat (k_repl kc)) provs) as [|[[p dist] na] [|x l]]; try apply settle_armed.
+  - destruct (pub =? PUB_INVALID); [apply settle_armed|]. destruct (k_auto kc); apply settle_armed.
+  - destruct (decoded_provs (k_repl kc) provs) as [|[[p dist] na] [|x l]]; try apply settle_armed.
     destruct (p =? from); apply settle_armed.
   - destruct (do_top kc st (TOp (OGet key))). apply settle_armed.
   - destruct (do_top kc st (TOp (OGetProviders key))). apply settle_armed.
@@ -617,3 +620,40 @@ Lemma kfinal_addr_bound kc h : 1 <= max_per_key (k_scfg kc) ->
   Forall (fun kp : N * list prov => Forall (fun p => p_naddr p <= WIRE_MAX_ADDRS) (snd kp))
          (pkeys (kstore (kfinal kc h))).
 Proof. intro Hc. exact (proj2 (kfinal_good kc h Hc)). Qed.
+
+(* ---- the source tables the model was written for (regenerated from the Rust source on every
+   check by tools/gen_c17_tables.py): a new public method of MemoryStore, a new call of the store
+   in kademlia/mod.rs, a new Quorum / validation-mode / store-action variant, a new configuration
+   field, a builder setter writing another field, or a clock read outside the helper makes one
+   of these equalities false ---- *)
+From V.gen Require C17Tables.
+
+(* with_config get put get_providers put_provider put_local_provider remove_local_provider next_action *)
+Definition model_store_methods : list N := [0; 1; 2; 3; 4; 5; 6; 7].
+(* (arm, method): the store operation of every event of Ingress.v's `kev`, plus the select! arm *)
+Definition model_call_sites : list (N * N) :=
+  [(1, 2);     (* KPutValue            -> put                   *)
+   (2, 1);     (* KGetValue            -> get                   *)
+   (3, 4);     (* KAddProvider         -> put_provider          *)
+   (4, 3);     (* KGetProviders        -> get_providers         *)
+   (6, 2);     (* KCmdPutRecord        -> put                   *)
+   (7, 2);     (* KCmdPutToPeers       -> put                   *)
+   (8, 5);     (* KCmdStartProviding   -> put_local_provider    *)
+   (9, 6);     (* KCmdStopProviding    -> remove_local_provider *)
+   (10, 1);    (* KCmdGetRecord        -> get                   *)
+   (11, 3);    (* KCmdGetProviders     -> get_providers         *)
+   (13, 2);    (* KCmdStoreRecord      -> put                   *)
+   (14, 5);    (* KAge / refresh_all   -> put_local_provider    *)
+   (15, 7)].   (* settle / KAge        -> next_action           *)
+
+Lemma tables_match :
+  V.gen.C17Tables.store_methods = model_store_methods /\
+  V.gen.C17Tables.store_call_sites = model_call_sites /\
+  V.gen.C17Tables.store_actions = [0] /\
+  V.gen.C17Tables.quorum_variants = [0; 1; 2] /\
+  V.gen.C17Tables.validation_modes = [0; 1] /\
+  V.gen.C17Tables.config_fields = [0; 1; 2; 3; 4; 5; 6] /\
+  V.gen.C17Tables.config_defaults = [(0, 0); (1, 1); (2, 2); (3, 3); (4, 4); (5, 5); (6, 6)] /\
+  V.gen.C17Tables.builder_setters = [(0, 0); (1, 1); (2, 2); (3, 3); (4, 4); (5, 5); (6, 6)] /\
+  V.gen.C17Tables.clock_reads = [1; 3].
+Proof. repeat split; reflexivity. Qed.
